@@ -519,6 +519,11 @@ def consumeAny (t : Nat) (bz : Bytes) : Option Nat :=
 
 def maxAnyDepth : Nat := 64
 
+/-- the next byte is 0x00 (the "empty element" marker of the list decoders). -/
+def headZero : Bytes → Bool
+  | b :: _ => b == 0
+  | [] => false
+
 /-- `IsASCIIText`. -/
 def isASCIIText (bs : Bytes) : Bool := !bs.isEmpty && bs.all fun b => 32 ≤ b.toNat && b.toNat ≤ 126
 
@@ -656,7 +661,7 @@ def decUnpacked (env : Env) : Nat → TD → Bool → Bool → Bool → Nat → 
       else
         let bz1 := bz.drop kn
         let isStructPtr := ptr && isStructKind env e
-        if (match bz1 with | b :: _ => b == 0 | [] => false) && (!isStructPtr || nilElems) then
+        if headZero bz1 && (!isStructPtr || nilElems) then
           let ev : Val :=
             if nilElems then (if ptr then .nil else zeroOf env e)
             else defaultSlot env ptr e
